@@ -27,6 +27,12 @@
  *     rw T R HEX                  rewrite the record of an EXISTING element the way Vdetach / VSdetach do:
  *                                 HDreuse_tagref(T, R) + Hputelement(T, R, HEX)
  *     vsattr I SEED               attach the (I mod n)-th EXISTING Vdata for writing, VSsetattr (header grows), detach
+ *     mode M                      (first op of a session) the file is opened with access mode M (3 = DFACC_RDWR default,
+ *                                 7 = DFACC_ALL "open, create if it does not exist", 2 = DFACC_WRITE)
+ *     dupx T R OT OR              Hdupdd(T, R, OT, OR) where T/R is ALREADY in use: must be refused and leave no trace
+ *     dup T R OT OR               Hdupdd with a free new name: a second descriptor for the data of OT/OR
+ *     vgattr I NAME NT SEED       attach the (I mod n)-th existing Vgroup for writing, Vsetattr(NAME, NT, 1 value), detach
+ *     gr NAME W H NCOMP SEED [NT [PAL]]   optional number type and a 256-entry palette
  *     del T R                     Hdeldd of an existing element (sessions of the first sentence only)
  *     sdsnd NAME NT D0[xD1..]     SDcreate + SDendaccess, no data written (metadata-only session)
  *     sdgattr NAME SEED           SDsetattr on the file: a new global attribute
@@ -134,10 +140,11 @@ static char *hexs(const unsigned char *b, long n)
 /* ------------------------------------------------------------------ the op interpreter */
 typedef struct { int32 fid, sd, gr, an; int vstarted; const char *path; } sess_t;
 
+static int open_mode = DFACC_RDWR;
 static int need_h(sess_t *s, int create, int ndds)
 {
     if (s->fid != FAIL) return 0;
-    s->fid = Hopen(s->path, create ? DFACC_CREATE : DFACC_RDWR, (int16)ndds);
+    s->fid = Hopen(s->path, create ? DFACC_CREATE : open_mode, (int16)ndds);
     if (s->fid == FAIL) return -1;
     if (Vstart(s->fid) == FAIL) return -1;
     s->vstarted = 1;
@@ -198,6 +205,30 @@ static int do_op(sess_t *s, char *line)
         if (Vaddtagref(b, 700 + (int32)(rnd() % 5), 1 + (int32)(rnd() % 50)) == FAIL) rc = -1;
         if (Vdetach(b) == FAIL) rc = -1;
         if (Vdetach(a) == FAIL) rc = -1;
+        return rc;
+    }
+    if (!strcmp(tok[0], "mode") && nt >= 2) { open_mode = atoi(tok[1]); return need_h(s, 0, 0); }
+    if ((!strcmp(tok[0], "dupx") || !strcmp(tok[0], "dup")) && nt >= 5) {
+        int r;
+        if (need_h(s, 0, 0)) return -1;
+        r = Hdupdd(s->fid, (uint16)atoi(tok[1]), (uint16)atoi(tok[2]), (uint16)atoi(tok[3]), (uint16)atoi(tok[4]));
+        if (!strcmp(tok[0], "dupx")) return r == FAIL ? 0 : -1;   /* the refusal is the expected result */
+        return r == FAIL ? -1 : 0;
+    }
+    if (!strcmp(tok[0], "vgattr") && nt >= 5) {
+        int32 vg, ref = -1, refs[256]; int n = 0, rc = 0;
+        int32 ntp = atoi(tok[3]);
+        union { float32 f; int32 i; int16 h; uint8 b[8]; } v;
+        if (need_h(s, 0, 0)) return -1;
+        rnd_state = (unsigned)atoi(tok[4]);
+        memset(&v, 0, sizeof v);
+        if (ntp == DFNT_FLOAT32) v.f = (float32)(rnd() % 1000) / 4.0f; else v.i = (int32)rnd();
+        while (n < 256 && (ref = Vgetid(s->fid, ref)) != FAIL) refs[n++] = ref;
+        if (n == 0) return 0;
+        vg = Vattach(s->fid, refs[atoi(tok[1]) % n], "w");
+        if (vg == FAIL) return -1;
+        if (Vsetattr(vg, tok[2], ntp, 1, &v) == FAIL) rc = -1;
+        if (Vdetach(vg) == FAIL) rc = -1;
         return rc;
     }
     if (!strcmp(tok[0], "rw") && nt >= 4) {
@@ -345,11 +376,16 @@ static int do_op(sess_t *s, char *line)
         if (s->gr == FAIL) { s->gr = GRstart(s->fid); if (s->gr == FAIL) return -1; }
         dims[0] = atoi(tok[2]); dims[1] = atoi(tok[3]);
         rnd_state = (unsigned)atoi(tok[5]);
-        ri = GRcreate(s->gr, tok[1], ncomp, DFNT_UINT8, MFGR_INTERLACE_PIXEL, dims);
+        ri = GRcreate(s->gr, tok[1], ncomp, nt >= 7 ? atoi(tok[6]) : DFNT_UINT8, MFGR_INTERLACE_PIXEL, dims);
         if (ri == FAIL) return -1;
-        n = (long)dims[0] * dims[1] * ncomp;
+        n = (long)dims[0] * dims[1] * ncomp * DFKNTsize(nt >= 7 ? atoi(tok[6]) : DFNT_UINT8);
         for (i = 0; i < n && i < (long)sizeof buf; i++) buf[i] = (unsigned char)rnd();
         if (GRwriteimage(ri, start, NULL, dims, buf) == FAIL) rc = -1;
+        if (nt >= 8 && atoi(tok[7])) {   /* a palette of its own (it has a number-type element too) */
+            static uint8 pal[768]; int32 lut = GRgetlutid(ri, 0);
+            for (i = 0; i < 768; i++) pal[i] = (uint8)rnd();
+            if (lut == FAIL || GRwritelut(lut, 3, DFNT_UINT8, MFGR_INTERLACE_PIXEL, 256, pal) == FAIL) rc = -1;
+        }
         if (GRendaccess(ri) == FAIL) rc = -1;
         return rc;
     }
